@@ -65,10 +65,10 @@ func runC04SmallCache(cs CaseSpec) *CaseResult {
 		}
 	}
 	type pos struct{ block, at int }
-	first := map[string]pos{}    // event -> position of its first transaction
-	seenTx := map[string]bool{}  // committed transactions
-	done := map[string]bool{}    // events fully committed
-	order := []string{}          // events in commit order
+	first := map[string]pos{}   // event -> position of its first transaction
+	seenTx := map[string]bool{} // committed transactions
+	done := map[string]bool{}   // events fully committed
+	order := []string{}         // events in commit order
 	for bi, b := range x.RawBlocks {
 		txs := b.Transactions()
 		for i := 0; i < len(txs); {
